@@ -28,7 +28,7 @@ pub fn check(ctx: &Ctx, input: &Input) -> CaseResult {
 fn run(ctx: &Ctx) {
     let plans = [GenPlan {
         gen: "full",
-        cases: ctx.tier.pick(30_000, 600_000),
+        cases: ctx.tier.pick(150_000, 1_500_000),
         min_len: 0,
         max_len: ctx.tier.pick(1200, 3000),
     }];
